@@ -209,7 +209,7 @@ func checkC10(r *mon.Run) {
 			c10Flow(r, rng, w, &fl[i])
 		}
 	})
-	r.Require(int64(r.Pick(10000, 200000)), 20, "scmp_error_returned", "traceroute_ingress_answered", "traceroute_egress_answered", "traceroute_untraversed_flag")
+	r.Require(int64(r.Pick(10000, 200000)), 20, "scmp_error_returned", "traceroute_ingress_answered", "traceroute_egress_answered", "traceroute_untraversed_flag", "traceroute_egress_of_down_link")
 }
 
 type ifOwner struct {
@@ -254,19 +254,27 @@ func c10Flow(r *mon.Run, rng *rand.Rand, w *world, f *flow) {
 		id uint16
 		br int
 		ok bool
+		// downOK: the flagged interface is this router's egress, that link is
+		// down in w.netDown, and no other down interface lies on the way to
+		// this router or on the answer's way back
+		downOK bool
 	}
 	exp := map[[2]int]want{} // (hop, flag: 1=I(ConsIngress) 0=E(ConsEgress))
 	consDirOfHop := func(g int) bool {
 		s := h.SegOfHop(g)
 		return in[h.InfoOff[s]]&1 != 0
 	}
+	otherDown := false // a down interface used before the current event (either direction)
 	for _, e := range clean.Events {
+		if e.InKind == "external" && w.down[downKey{e.IA, e.InIf}] {
+			otherDown = true // the answer would have to leave through it
+		}
 		if e.InKind == "external" && e.InHF >= 0 {
 			flag := 0
 			if consDirOfHop(e.InHF) {
 				flag = 1
 			}
-			exp[[2]int{e.InHF, flag}] = want{e.IA.String(), e.InIf, e.BR, true}
+			exp[[2]int{e.InHF, flag}] = want{e.IA.String(), e.InIf, e.BR, true, false}
 		}
 		if e.Outcome == "forward-external" && e.OutHF >= 1 {
 			g := e.OutHF - 1
@@ -274,7 +282,10 @@ func c10Flow(r *mon.Run, rng *rand.Rand, w *world, f *flow) {
 			if consDirOfHop(g) {
 				flag = 0
 			}
-			exp[[2]int{g, flag}] = want{e.IA.String(), e.EgIf, e.BR, true}
+			exp[[2]int{g, flag}] = want{e.IA.String(), e.EgIf, e.BR, true, !otherDown && w.down[downKey{e.IA, e.EgIf}]}
+		}
+		if e.Outcome == "forward-external" && w.down[downKey{e.IA, e.EgIf}] {
+			otherDown = true
 		}
 	}
 	id, seq := uint16(rng.IntN(1<<16)), uint16(rng.IntN(1<<16))
@@ -292,9 +303,19 @@ func c10Flow(r *mon.Run, rng *rand.Rand, w *world, f *flow) {
 		for flag := 0; flag < 2; flag++ {
 			mut := append([]byte(nil), tr...)
 			mut[th.HopOff[g]] |= 1 << flag // bit0 = E (ConsEgress alert), bit1 = I (ConsIngress alert)
-			wk := w.net.Send(f.src, f.br, f.srcUDP, mut)
+			net := w.net
+			if exp[[2]int{g, flag}].downOK {
+				// the link behind the flagged egress interface is down: the request
+				// is answered all the same (the alert is handled before the link state)
+				net = w.netDown
+				r.Event("traceroute_egress_of_down_link")
+			}
+			wk := net.Send(f.src, f.br, f.srcUDP, mut)
 			r.Eval(1)
 			side := []string{"egress-flag", "ingress-flag"}[flag]
+			if net == w.netDown {
+				side += "/link-down"
+			}
 			note := fmt.Sprintf("traceroute request, %s on hop %d", side, g)
 			if wk.Panic != "" {
 				r.Violation("C10:panic:"+mon.PanicSite(wk.Stack), "router panicked", wit(w, f, mut, wk, note))
